@@ -424,6 +424,7 @@ type SiteAssert struct {
 }
 
 type Contract struct {
+	Invokes  []string
 	Key      string // canonical function key
 	File     string
 	Line     int
@@ -479,7 +480,7 @@ func newContractSet() *ContractSet {
 var clauseKeywords = map[string]bool{
 	"func": true, "props": true, "requires": true, "ensures": true, "modifies": true, "assume-ensures": true,
 	"pure": true, "trusted": true, "maypanic": true, "deadpoints": true, "sampler": true, "loop": true, "site": true, "let": true,
-	"define": true, "global": true, "ghost": true, "unfold": true, "spectype": true, "skip": true, "note": true, "package": true, "thorough": true,
+	"invokes": true, "define": true, "global": true, "ghost": true, "unfold": true, "spectype": true, "skip": true, "note": true, "package": true, "thorough": true,
 }
 
 // parseContractFile reads a contract file. pkgPrefix is prepended to function
@@ -681,6 +682,11 @@ func (cs *ContractSet) parseContractFile(path, pkgPath string, goFile bool) erro
 				if rest != "" {
 					cur.Notes = append(cur.Notes, "trusted: "+rest)
 				}
+			case "invokes":
+				// invokes <param>: the function calls the function value passed as
+				// <param> (any number of times >= 1 is modelled as exactly once, with
+				// arbitrary arguments): its contract is applied at the call site
+				cur.Invokes = append(cur.Invokes, strings.Fields(rest)...)
 			case "maypanic":
 				cur.MayPanic = true
 			case "deadpoints":
